@@ -62,9 +62,9 @@ type dRule struct {
 }
 
 type dictSet struct {
-	byName map[uint32]map[string]*dAVP   // app -> name -> avp (last load wins, as in go-diameter)
+	byName map[uint32]map[string]*dAVP    // app -> name -> avp (last load wins, as in go-diameter)
 	byCode map[uint32]map[[2]uint32]*dAVP // app -> (code,vendor) -> avp
-	cmds   map[[2]uint32]*dCommand       // (app, code)
+	cmds   map[[2]uint32]*dCommand        // (app, code)
 	dupCmd []string
 	// all definitions per app, in load order (to find conflicting redefinitions)
 	all map[uint32][]*dAVP
@@ -282,7 +282,9 @@ func checkC17(c *Ctx, r *Report) {
 	for k := range byCode {
 		codes = append(codes, k)
 	}
-	sort.Slice(codes, func(i, j int) bool { return codes[i][0] < codes[j][0] || (codes[i][0] == codes[j][0] && codes[i][1] < codes[j][1]) })
+	sort.Slice(codes, func(i, j int) bool {
+		return codes[i][0] < codes[j][0] || (codes[i][0] == codes[j][0] && codes[i][1] < codes[j][1])
+	})
 	for _, k := range codes {
 		names := sortedKeys(byCode[k])
 		key := fmt.Sprintf("code %d vendor %d", k[0], k[1])
